@@ -13,6 +13,9 @@ impl FromStr for Label {
     fn from_str(s: &str) -> Result<Self, Self::Err> {
         Ok(if s.starts_with('α') {
             let tail: String = s.chars().skip(1).collect::<Vec<_>>().into_iter().collect();
+            if tail.chars().count() > 7 {
+                return Err(anyhow!("Can't parse more than 8 chars"));
+            }
             Self::Alpha(tail.parse::<usize>()?)
         } else if s.chars().count() == 1 {
             Self::Greek(s.chars().next().unwrap())
